@@ -73,13 +73,17 @@ def check(kind, v, b=None):
             if got != [v]:
                 return ("C15:øD:roundtrip", f"øD({v!r}) = {text!r} evaluates to {got!r}")
         elif kind == "τβ":
-            digits = E.to_base(v, b, ctx)
-            dl = list(digits)
-            if not all(isinstance(d, int) and not isinstance(d, bool) and 0 <= d < b for d in dl):
-                return ("C15:τ:digit-out-of-range", f"{v} τ {b} = {dl!r} has a digit outside [0, {b})")
-            back = E.from_base(dl, b, ctx)
-            if harness.exact_number(back) != v:
-                return ("C15:τβ:roundtrip", f"{v} τ {b} = {dl!r}, and β of that is {back!r}")
+            import sympy
+
+            # the value and the base both as Python ints (inputs, decompressed literals) and as sympy Integers (typed literals)
+            for tag, vv, bb in (("", v, b), (":sympy-integers", sympy.Integer(v), sympy.Integer(b)), (":sympy-value", sympy.Integer(v), b)):
+                digits = E.to_base(vv, bb, ctx)
+                dl = list(digits)
+                if not all(harness.exact_number(d) is not None and harness.exact_number(d).denominator == 1 and 0 <= harness.exact_number(d) < b for d in dl):
+                    return ("C15:τ:digit-out-of-range" + tag, f"{v} τ {b} = {dl!r} has a digit outside [0, {b})" + tag)
+                back = E.from_base(dl, bb, ctx)
+                if harness.exact_number(back) != v:
+                    return ("C15:τβ:roundtrip" + tag, f"{v} τ {b} = {dl!r}, and β of that is {back!r}" + tag)
         else:
             raise ValueError(kind)
     except (harness.FuelExhausted, harness.Inconclusive):
